@@ -1,6 +1,7 @@
 import AsynqModel.Sexp
 import AsynqModel.Drv.Futures
 import AsynqModel.Drv.Core
+import AsynqModel.Drv.Decorators
 import AsynqModel.Drv.Cache
 import AsynqModel.Drv.Debug
 import AsynqModel.Drv.Mock
@@ -15,6 +16,7 @@ def handleCase (mode : String) (id : Nat) (hdr body : List Sexp) : String :=
   match mode with
   | "futures" => Drv.Futures.handle id hdr body
   | "core" => Drv.Core.handle id hdr body
+  | "decorators" => Drv.Decorators.handle id hdr body
   | "cache" => Drv.Cache.handle id hdr body
   | "debug" => Drv.Debug.handle id hdr body
   | "mock" => Drv.Mock.handle id hdr body
